@@ -314,9 +314,12 @@ _TABLE: List[Tuple[str, Tuple[str, ...], bool, Any]] = [
     ("len", (), False, None),
     ("len((a, b))", ("a", "b"), False, None),
     ("__builtins__", (), False, None),
+    # variables that are NAMED like whitelisted functions: as values they are the variables, not the functions
+    ("max - abs", ("max", "abs"), True, lambda a, b: 2),
     ("a + open", ("a",), False, None),
 ]
-_NAMESETS: List[Tuple[str, ...]] = [(), ("a",), ("b",), ("a", "b"), ("a", "b", "len"), ("a", "open")]
+_NAMESETS: List[Tuple[str, ...]] = [(), ("a",), ("b",), ("a", "b"), ("a", "b", "len"), ("a", "open"), ("max", "abs")]
+_EXTRA_VALUES = {"max": 5, "abs": 3}
 
 
 def _ref_accept(i: int, n: int) -> bool:
@@ -334,7 +337,7 @@ def _free_all(text: str) -> List[str]:
     return sorted({n.id for n in ast.walk(ast.parse(text, mode="eval")) if isinstance(n, ast.Name)} - set(DOC_FUNCS))
 
 
-def _compile_once(ev, i: int, n: int, via_factory: bool = False):
+def _compile_once(ev, i: int, n: int, via_factory: bool = False, alias: bool = False):
     """compile text i with declared names n.  Text and names are concrete once the indices are forked on, and the
     compile itself runs natively (NoTracing): under the tracer CrossHair's set/dict proxies change in-place update
     semantics (`s |= ...` rebinding instead of mutating), which would hide state shared between evaluators."""
@@ -351,9 +354,13 @@ def _compile_once(ev, i: int, n: int, via_factory: bool = False):
             from semantiva.data_processors.parametric_sweep_factory import ParametricSweepFactory, SequenceSpec
             from vt import lib
 
+            from semantiva.data_processors.parametric_sweep_factory import FromContext
+
+            # alias: the variables are v_<name>, read from context keys called <name> -- the context KEYS are not names
+            vars_ = {("v_" + nm): FromContext(nm) for nm in names} if alias else {nm: SequenceSpec([0]) for nm in names}
             try:
                 ParametricSweepFactory.create(element=lib.OpTwo, element_kind="DataOperation", collection_output=lib.IntColl,
-                                              vars={nm: SequenceSpec([0]) for nm in names}, parametric_expressions={"a": text})
+                                              vars=vars_, parametric_expressions={"a": text})
                 return "accepted-by-factory"
             except ValueError:
                 return None
@@ -361,6 +368,11 @@ def _compile_once(ev, i: int, n: int, via_factory: bool = False):
             return ev.compile(text, set(names))
         except ExpressionError:
             return None
+
+
+def custom_first_alias(custom_first, eval_between, same_evaluator) -> bool:
+    """through the factory the (otherwise unused) flag `same_evaluator` selects the alias variant"""
+    return bool(same_evaluator) and not custom_first and not eval_between
 
 
 def _new_evaluator(custom: bool):
@@ -405,18 +417,19 @@ def _e2_body(i1: int, n1: int, i2: int, n2: int, same_evaluator: bool, a: int, b
     # the first compiled expression is evaluated before the second compile
     ev1 = _new_evaluator(True if (custom_first and not same_evaluator) else False)
     via = True if via_factory else False
-    f1 = _compile_once(ev1, i1, n1, via)
+    alias = True if (via and custom_first_alias(custom_first, eval_between, same_evaluator)) else False
+    f1 = _compile_once(ev1, i1, n1, via, alias)
     if eval_between and callable(f1):
         try:
             f1(**{nm: 1 for nm in _NAMESETS[n1]})
         except Exception:  # noqa: BLE001
             pass
     ev2 = ev1 if same_evaluator else _new_evaluator(False)
-    f2 = _compile_once(ev2, i2, n2, via)
+    f2 = _compile_once(ev2, i2, n2, via, alias)
     for (i, n, f, which) in ((i1, n1, f1, "first"), (i2, n2, f2, "second")):
         if which == "first" and custom_first and not same_evaluator:
             continue  # the customised evaluator legitimately accepts more
-        exp = _ref_accept(i, n)
+        exp = _ref_accept(i, n) and not (alias and _NAMESETS[n])
         if (f is not None) != exp:
             return Fail("C11.E2:verdict:%s:%s" % (which, "accepted" if f is not None else "rejected"), "%s compile(%r, %r) %s; reference says %s" % (which, _TABLE[i][0], _NAMESETS[n], "accepted" if f is not None else "rejected", exp))
         ref = _TABLE[i][3]
@@ -428,8 +441,11 @@ def _e2_body(i1: int, n1: int, i2: int, n2: int, same_evaluator: bool, a: int, b
                 kw["b"] = b
             for extra in _NAMESETS[n]:
                 if extra not in ("a", "b"):
-                    kw[extra] = 0
-            got = f(**kw)
+                    kw[extra] = _EXTRA_VALUES.get(extra, 0)
+            try:
+                got = f(**kw)
+            except Exception as e:  # noqa: BLE001
+                return Fail("C11.E2:value", "%r raised %r when evaluated with its declared variables bound" % (_TABLE[i][0], e))
             if not (got == ref(a, b)):
                 return Fail("C11.E2:value", "%r evaluated to a different value than the reference" % (_TABLE[i][0],))
     return True
@@ -495,7 +511,7 @@ def obligations(tier: str) -> List[Ob]:
             replay=_replay_e2,
             params=[("single", None)] + [("same", i) for i in range(len(_TABLE))] + [("pair2", (i, j)) for i in range(len(_TABLE)) for j in range(len(_TABLE)) if i != j and _TABLE[i][0].startswith(("(a,)", "(b,)")) and _TABLE[j][0].startswith(("(a,)", "(b,)"))] + ([("pair", i) for i in range(len(_TABLE))] if tier == "thorough" else []),
             budget=240 if tier == "quick" else 1200,
-            bound="compile() as the unit: 20 expression texts x 6 declared-name sets (symbolic indices), variable values a,b symbolic ints (evaluation compared with a reference for all values); "
+            bound="compile() as the unit: 21 expression texts x 7 declared-name sets (incl. variables named like whitelisted functions; through the factory also variables that alias context keys) (symbolic indices), variable values a,b symbolic ints (evaluation compared with a reference for all values); "
             "compile reached directly or through ParametricSweepFactory.create (symbolic flag); sequences of 2 compile() calls on the same text with symbolic name sets and same/fresh evaluator (quick), the two tuple-concatenation texts (same signature, different value) in both orders (quick), any ordered pair of texts (thorough)",
             targets=["semantiva/utils/safe_eval.py:ExpressionEvaluator.compile"],
         )
